@@ -95,7 +95,8 @@ Definition check_V (p : string) (args : list sexp) : list sexp :=
           if negb (case_wf1 c) then [A "decode-error"; A "case-not-wellformed"] else
           match ok_V p c b o with
           | Some okv =>
-              [A (if okv then (if rel_V o m then "ok" else "rel") else "bad");
+              [A (if okv then (if rel_V o m then "ok" else "rel")
+                  else if (p =? "C06") && mixed_legacy_tags c && negb (is_accept o) then "known:c06-legacy-mixed-id-did-tags" else "bad");
                A ("impl:" ++ outcome_tag o); A ("model:" ++ outcome_tag m);
                A (match c with CLegacy _ _ _ => "fmt:legacy" | CW3C _ _ _ => "fmt:w3c" end)]
           | None => [A "decode-error"]
